@@ -237,7 +237,7 @@ impl DegreeMeta for Expression {
                         result = result || index.propagate_degrees(env);
                     }
                 }
-                if env.degree(var).is_none() {
+                if env.degree(var).is_none() && !env.is_assigned(var) {
                     // This is the first assignment to the array. The degree is given by the RHS.
                     if let Some(range) = rhe.degree() {
                         result = result || meta.degree_knowledge_mut().set_degree(range);
